@@ -1250,6 +1250,47 @@ impl ValueTable {
 		Ok(len)
 	}
 
+	/// Verification hook (read-only, quiescent handle): `(entry_size, filled, last_removed,
+	/// free list length)`; the free list is walked through the file.
+	#[cfg(pdb_verif)]
+	pub fn verif_state(&self) -> Result<(u16, u64, u64, u64)> {
+		let filled = self.filled.load(Ordering::Relaxed);
+		let last_removed = self.last_removed.load(Ordering::Relaxed);
+		let mut len = 0u64;
+		if self.file.map.read().is_some() {
+			let mut next = last_removed;
+			while next != 0 {
+				if next >= filled || len > filled {
+					return Err(crate::error::Error::Corruption(format!(
+						"Bad removed ref {} out of {}",
+						next, filled
+					)))
+				}
+				let mut buf = PartialEntry::new_uninit();
+				self.file.read_at(buf.as_mut(), next * self.entry_size as u64)?;
+				if !buf.is_tombstone() {
+					return Err(crate::error::Error::Corruption(format!(
+						"Free list entry {} is not a tombstone",
+						next
+					)))
+				}
+				buf.skip_size();
+				next = buf.read_next();
+				len += 1;
+			}
+		}
+		Ok((self.entry_size, filled, last_removed, len))
+	}
+
+	/// Verification hook (read-only): raw bytes of slot `index` as stored in the file.
+	#[cfg(pdb_verif)]
+	pub fn verif_entry(&self, index: u64) -> Result<Vec<u8>> {
+		if self.file.map.read().is_none() {
+			return Ok(Vec::new())
+		}
+		self.dump_entry(index)
+	}
+
 	pub fn get_num_entries(&self) -> Result<u64> {
 		if let Some(free_entries) = &self.free_entries {
 			let free_entries = free_entries.read();
